@@ -32,18 +32,18 @@ var (
 // guardedFields: confirmed by reading (DESIGN.md §2.5). Fields of a struct type
 // listed with "*" cover all its fields.
 var guardedFields = map[string]guardRow{
-	"s3mem.Backend.buckets":        {memLock, "bucket map of the memory backend"},
-	"s3mem.Backend.versionScratch": {memLock, "scratch buffer of the version generator, owned by the backend"},
-	"s3mem.bucket.*":               {memLock, "bucket state"},
-	"s3mem.bucketObject.*":         {memLock, "object state (current version, archived versions)"},
-	"s3mem.bucketData.*":           {memLock, "version data"},
-	"s3mem.versionGenerator.state": {vgLock, "PRNG state"},
-	"s3mem.versionGenerator.next":  {vgLock, "version counter"},
-	"gofakes3.uploader.buckets":    {upLock, "uploads per bucket"},
-	"gofakes3.uploader.uploadID":   {upLock, "upload id counter"},
-	"gofakes3.bucketUploads.*":     {upLock, "upload map and object index"},
+	"s3mem.Backend.buckets":          {memLock, "bucket map of the memory backend"},
+	"s3mem.Backend.versionScratch":   {memLock, "scratch buffer of the version generator, owned by the backend"},
+	"s3mem.bucket.*":                 {memLock, "bucket state"},
+	"s3mem.bucketObject.*":           {memLock, "object state (current version, archived versions)"},
+	"s3mem.bucketData.*":             {memLock, "version data"},
+	"s3mem.versionGenerator.state":   {vgLock, "PRNG state"},
+	"s3mem.versionGenerator.next":    {vgLock, "version counter"},
+	"gofakes3.uploader.buckets":      {upLock, "uploads per bucket"},
+	"gofakes3.uploader.uploadID":     {upLock, "upload id counter"},
+	"gofakes3.bucketUploads.*":       {upLock, "upload map and object index"},
 	"gofakes3.multipartUpload.parts": {upLock, "parts of a pending upload"},
-	"s3afero.metaStore.modTimeRes": {anyAfero, "lazily computed mod-time resolution"},
+	"s3afero.metaStore.modTimeRes":   {anyAfero, "lazily computed mod-time resolution"},
 }
 
 // fsFields: afero.Fs-typed fields whose every use must hold the backend lock.
